@@ -184,7 +184,10 @@ def complex_models(rng, n):
     """Hermitian models with complex hopping / spin-flip / pair amplitudes, entered as user terms t c^+_a c_b + conj(t) c^+_b c_a
     and through the complex overload of addHopping"""
     out = []
-    for k in range(n):
+    # fixed members: 1x1 blocks with NEGATIVE energies (a spinless level), and two spinless levels with a complex hopping
+    out.append(model("cplx-level", [["A", 1, 1]], [P("addLevel", "A", -4)]))
+    out.append(model("cplx-hop2", [["A", 1, 1], ["B", 1, 1]], [P("addLevel", "A", -4), P("addLevel", "B", 4), P("addHopping8c", "A", "B", 2, 4, 0, 0, 0, 0)]))
+    for k in range(max(0, n - 2)):
         lay = random_layout(rng, 4)
         S = {l: (o, s) for (l, o, s) in lay}
         tr = [(l, a, z) for (l, o, s) in sorted(lay) for a in range(o) for z in range(s)]
